@@ -47,3 +47,13 @@ def stubSim (sc : Script) : SimIface StubSt Int (List Int) (List Int) where
   pending := fun s a => s.pend.getD a 0
 
 end Abmarl
+
+namespace Abmarl
+
+/-- the stub with a constant episode number: its `reset` does not depend on the prior state at all
+(used for the used-versus-fresh twins of C08) -/
+def stubSimFlat (sc : Script) : SimIface StubSt Int (List Int) (List Int) :=
+  { stubSim sc with
+    reset := fun _ => { ep := 1, t := 0, reads := List.replicate sc.n 0, pend := List.replicate sc.n 0 } }
+
+end Abmarl
